@@ -78,7 +78,7 @@ fn members(kind: ArgKind, tier: Tier) -> Vec<String> {
             }
         }
         ArgKind::Format => {
-            for f in ["'%p\\n'", "a", "'%%'", "'%p %s\\0'", "'\\101'", "'%{fid}'", "'%A@'", "'%TY'", "\"%u:%g\\n\"", "%p", "'a b'", "'%{xattr:abc}\\n'", "'\\\\'", "'%m %M'", "'%p\\012'", "'\\0'", "'a\\054b'", "'%a%b%c%d%D'", "'%f %F %g %G'", "'%h/%H'", "'%H/%h'", "'%i %k %l %m %M %n'", "'%P %s %S %t %u %U %y %Y %Z'", "'%Ck %Tk %Ak'", "'%{projid} %{mirror-count} %{stripe-count} %{stripe-size}'"] {
+            for f in ["'%p\\n'", "a", "'%%'", "'%p %s\\0'", "'\\101'", "'%{fid}'", "'%A@'", "'%TY'", "\"%u:%g\\n\"", "%p", "'a b'", "'%{xattr:abc}\\n'", "'\\\\'", "'%m %M'", "'%p\\012'", "'\\0'", "'a\\054b'", "'\\177'", "'\\007x'", "'a\\777'", "'\\170\\017'", "'%a%b%c%d%D'", "'%f %F %g %G'", "'%h/%H'", "'%H/%h'", "'%i %k %l %m %M %n'", "'%P %s %S %t %u %U %y %Y %Z'", "'%Ck %Tk %Ak'", "'%{projid} %{mirror-count} %{stripe-count} %{stripe-size}'"] {
                 v.push(f.into());
             }
         }
